@@ -3,6 +3,7 @@ import TFV.Properties.Runs
 import TFV.Properties.Src.BinKernels
 import TFV.Properties.Src.BinKernels2
 import TFV.Properties.Src.GATrial
+import TFV.Properties.Src.ShagaTrial
 #print axioms TFV.BinOps.C06_cross_parentage
 #print axioms TFV.BinOps.C06_cross_binary
 #print axioms TFV.BinOps.C06_empty
@@ -33,3 +34,4 @@ import TFV.Properties.Src.GATrial
 #print axioms TFV.SrcTie.C06_src_empty_crossover
 #print axioms TFV.SrcTie.C06_src_ga_offspring
 #print axioms TFV.SrcTie.C06_src_ga_offspring_oob
+#print axioms TFV.SrcTie.C06_src_shaga_offspring
